@@ -9,7 +9,8 @@ Judge (from the property text, on what the REAL scheduler did):
   (on the pooled proxy or on the proxy when it was removed);
 * the launched instances are contained in the spawn-on-demand closure computed from the graph and the outputs
   completed in the run; for a run of kind `complete` that shut down by itself (graph without suicide triggers)
-  the two sets are equal; a `complete` run must end in automatic shutdown (unless the operation budget ran out).
+  the two sets are equal; a `complete` run must end in automatic shutdown (unless the operation budget ran out). The
+  premise "every finished task is complete" is read off the run: no finished task is retained in the final pool.
 The hypothesis `Graph.wf` of the theorems is checked on every real graph.
 -/
 import CylcModel.SchedObsC01
@@ -108,6 +109,10 @@ def judgeClosure (i : Json) (g : Graph) (kind : String) (nOps : Nat) (obs : List
   | none =>
     if kind != "complete" then none else
     let last := obs.getLast?.getD Json.null
+    -- the premise "every finished task completes its required outputs", read off the run itself: a finished task
+    -- that is retained in the pool is an incomplete one (the generator's kind `complete` is only a bias)
+    let finished (st : String) : Bool := st == "failed" || st == "succeeded" || st == "submit-failed" || st == "expired"
+    if (poolObs last).any (fun x => finished x.st) then none else
     let stop := jStrField? last "stop"
     if stop.isNone then
       if nOps ≥ 260 then none
